@@ -672,7 +672,10 @@ def oracle_threads(case, res=None):
                 return ([], 'generate-' + errname(e))
             return drain(s)
         return run
-    results = Sched([mk(i) for i in range(len(datas))], sched, preempt=case.get('preempt') or ()).run()
+    try:
+        results = Sched([mk(i) for i in range(len(datas))], sched, preempt=case.get('preempt') or ()).run()
+    except RuntimeError as e:
+        return [fail(case, 'both threads finish', 'two finished renders', str(e))]
     for i, r in enumerate(results):
         got = r[1] if r[0] == 'ok' else ([], 'thread-err:' + r[1])
         cmp_render(case, 'thread %d of %d under the line scheduler renders what a render alone renders' % (i, len(datas)),
@@ -1091,6 +1094,9 @@ def gen_model_case(rng):
 
 def gen_case(rng, kind, modelled=False):
     t = G.rand_template(rng, modelled)
+    while kind == 'threads' and t['files']:
+        # the loader serialises loads with an RLock; the line scheduler would park a thread inside it
+        t = G.rand_template(rng, modelled)
     t = {'src': t['src'], 'files': t['files'], 'translator': t['translator'], 'auto_reload': t['auto_reload']}, t['features']
     tspec, feats = t
     if kind == 'seq':
